@@ -911,9 +911,10 @@ fn run_writeq<M: Backing>(seq: &Seq, ops: &[Op], ctx: &mut SeqCtx<'_>) -> Result
                             if excused {
                                 ctx.count(&format!("probe.synced_overtook_older_event.{}", &kind[4..]), 1);
                                 nontrivial = true;
-                                if ctx.strict {
-                                    viol(ctx, seq, oi, "C03", "C03.queue.snapshot", &format!("{kind}:overtaken_event"), format!("op #{oi}: at Synced remote {r} holds {have:?} for key {k}; between its sync request and now the lane held {hist:?}; a live event for the key pushed before the sync request is still queued (known behaviour C03.snapshot:key_stale)"));
-                                }
+                                // This used to be excused (recorded finding C03.snapshot:key_stale); the defect was repaired
+                                // in /repo (a0af5f8), so it is a violation like any other now.
+                                let _ = ctx.strict;
+                                viol(ctx, seq, oi, "C03", "C03.queue.snapshot", &format!("{kind}:overtaken_event"), format!("op #{oi}: at Synced remote {r} holds {have:?} for key {k}; between its sync request and now the lane held {hist:?}; a live event for the key pushed before the sync request is still queued"));
                             } else {
                                 viol(ctx, seq, oi, "C03", "C03.queue.snapshot", kind, format!("op #{oi}: at Synced remote {r} holds {have:?} for key {k}; between its sync request and now the lane held {hist:?} and no older live event for the key is queued"));
                             }
